@@ -33,6 +33,10 @@ theorem inSync_eq (p : PGhost ι) (v : Nat) (f : Filter) (i : VInfo ι) : inSync
   unfold inSync insync keyOf
   cases f.ref <;> rfl
 
+/-- a view that carries promises has at least one hash function and a capacity below 2^32 bits (so that the 32-bit
+`num_longs << 6` of the pinned readers does not wrap when its image is read back) -/
+def KOK (f : Filter) : Prop := 1 ≤ f.numHashes ∧ f.capBits < 2 ^ 32
+
 def Hashed (hf : ι → Nat → Option (Nat × Nat)) (seed : Nat) (l : List ι) : Prop := ∀ x ∈ l, (hf x seed).isSome = true
 
 /-- per view: `X` = the number holding its bit state, `s` = ghost info of that bit state -/
@@ -40,7 +44,7 @@ structure ViewOK (P : Params) (hf : ι → Nat → Option (Nat × Nat)) (X : Nat
   up : i.promised = false → i.M = []
   /-- an unpromised view of a block that carries promises is never in sync -/
   us : i.promised = false → isMem f = true → s.tainted = false → i.sync < s.ver
-  k1 : i.promised = true → 1 ≤ f.numHashes
+  k1 : i.promised = true → KOK f
   hs : Hashed hf f.seed i.M
   cov : Covers hf X (f.off P) f.cfg i.M
   ne : i.M ≠ [] → f.isEmpty = false
@@ -53,8 +57,8 @@ structure ViewOK (P : Params) (hf : ι → Nat → Option (Nat × Nat)) (X : Nat
 
 /-- per caller block that still carries promises -/
 def BlockOK (P : Params) (hf : ι → Nat → Option (Nat × Nat)) (b : Block) (S : List ι) : Prop :=
-  (∃ nb nh seed, parseImage P b = .emptyImg nb nh seed ∧ S = []) ∨
-  (∃ cap nh seed nbs nl, parseImage P b = .full cap nh seed nbs nl ∧ 1 ≤ nh ∧ (nbs = P.dirty ∨ nbs = popCount b.val 256 cap) ∧
+  (∃ nb nh seed, parseImage P b = .emptyImg nb nh seed ∧ S = [] ∧ nb ≤ 2 ^ 32 - 64) ∨
+  (∃ cap nh seed nbs nl, parseImage P b = .full cap nh seed nbs nl ∧ (1 ≤ nh ∧ cap < 2 ^ 32) ∧ (nbs = P.dirty ∨ nbs = popCount b.val 256 cap) ∧
       Covers hf b.val 256 ⟨cap, nh, seed⟩ S ∧ Hashed hf seed S)
 
 structure Good (P : Params) (hf : ι → Nat → Option (Nat × Nat)) (w : World) (p : PGhost ι) : Prop where
